@@ -34,22 +34,29 @@ def log(*a):
     print(*a, file=sys.stderr, flush=True)
 
 # ---------------------------------------------------------------------------
-_built = set()
+_built = {}
 def build(cmd, race=False, tags="verif"):
-    """(Re)build harness command `cmd` against /repo's current working tree."""
+    """(Re)build harness command `cmd` against the repository's current working tree.
+    The repository is /repo; VERIF_REPO selects another checkout (used to try seeded changes in a
+    scratch worktree): the harness is then built from a scratch copy whose replace directive points
+    there, so that nothing shared is touched."""
     key = (cmd, race)
-    out = os.path.join(BIN, cmd + ("-race" if race else ""))
     if key in _built:
-        return out
-    os.makedirs(BIN, exist_ok=True)
+        return _built[key]
     h = os.path.join(VERIF, "harness")
+    bindir = BIN
+    if REPO != "/repo":
+        h2 = os.path.join(scratch(), "harness")
+        if not os.path.exists(h2):
+            shutil.copytree(h, h2)
+            gomod = open(os.path.join(h2, "go.mod")).read()
+            gomod = re.sub(r"replace github.com/theQRL/go-qrllib => .*\n", "replace github.com/theQRL/go-qrllib => %s\n" % REPO, gomod)
+            open(os.path.join(h2, "go.mod"), "w").write(gomod)
+        h = h2
+        bindir = os.path.join(scratch(), "bin")
+    os.makedirs(bindir, exist_ok=True)
+    out = os.path.join(bindir, cmd + ("-race" if race else ""))
     shutil.copyfile(os.path.join(REPO, "go.sum"), os.path.join(h, "go.sum"))
-    # the replace directive points at /repo; honour VERIF_REPO for scratch worktrees
-    gomod = open(os.path.join(h, "go.mod")).read()
-    want = "replace github.com/theQRL/go-qrllib => %s\n" % REPO
-    new = re.sub(r"replace github.com/theQRL/go-qrllib => .*\n", want, gomod)
-    if new != gomod:
-        open(os.path.join(h, "go.mod"), "w").write(new)
     args = ["go", "build", "-tags", tags]
     if race:
         args.append("-race")
@@ -59,7 +66,7 @@ def build(cmd, race=False, tags="verif"):
     if p.returncode != 0:
         raise Infra("harness build failed (%s):\n%s" % (cmd, p.stderr[-4000:]))
     log("[build] %s %.1fs" % (cmd, time.time() - t0))
-    _built.add(key)
+    _built[key] = out
     return out
 
 def run(args, timeout=3600, env=None, cwd=None, ok_codes=(0,)):
@@ -155,8 +162,11 @@ def tlc(module, cfg, workers=None, env=None, timeout=1800, simulate=None, depth=
 def write_evidence(pid, tier, level, coverage, wall, violations, assumptions=()):
     ev = {"property_id": pid, "tier": tier, "seed": seed(), "level": level, "coverage": coverage,
           "assumptions": list(assumptions), "wall_s": round(wall, 2), "violations": int(violations)}
-    os.makedirs(os.path.join(VERIF, "evidence"), exist_ok=True)
-    p = os.path.join(VERIF, "evidence", pid + ".json")
+    evdir = os.path.join(VERIF, "evidence")
+    if REPO != "/repo":      # a trial against another checkout must not overwrite the evidence of /repo
+        evdir = os.environ.get("VERIF_EVIDENCE_DIR", os.path.join(tempfile.gettempdir(), "verif-trial-evidence"))
+    os.makedirs(evdir, exist_ok=True)
+    p = os.path.join(evdir, pid + ".json")
     tmp = p + ".tmp"
     with open(tmp, "w") as f:
         json.dump(ev, f, indent=1, sort_keys=True)
